@@ -97,6 +97,9 @@ func newRec() *Rec {
 	return &Rec{nt: map[uint64]struct{}{}, labels: map[string]int64{}, extra: map[string]any{}, excluded: map[string]int64{}}
 }
 
+// NewRecForFuzz returns a stand-alone recorder for native fuzz targets (counts are reported by the fuzz engine).
+func NewRecForFuzz() *Rec { return newRec() }
+
 // Eval counts n evaluations (cases run against the oracle).
 func (r *Rec) Eval(n int) {
 	r.mu.Lock()
